@@ -378,22 +378,44 @@ def cacheSet (keep : Bool) : Nat → Tree → Nat → Tree
 
 def interCount (a b : List Nat) : Nat := (a.filter (fun x => b.contains x)).length
 
-/-- the query as `find` sees it -/
+/-- the query as `find` sees it: `mins` are the query's hashes after `find` has downsampled the
+query to the tree's scaled (when the query is finer); `cut = some max_hash` when the query is
+COARSER than the tree: every leaf is then downsampled to the query's scaled before it is scored
+(`downsample_node`), and an internal node's `min_n_below` (counted at the tree's scaled) is
+replaced by 1 in its score -/
 structure Query where
-  containment : Bool
+  containment : Bool       -- do_containment
   thr : Nat                -- threshold in thousandths
   mins : List Nat
+  maxc : Bool              -- do_max_containment (exclusive with `containment`; wins in this model)
+  cut : Option Nat
 
 /-- `passes(score)` for `score = shared / denom` (exact: the two floats are correctly rounded
 quotients of small integers and cannot straddle) -/
 def passes (q : Query) (shared denom : Nat) : Bool :=
   denom ≠ 0 && shared ≠ 0 && shared * 1000 ≥ q.thr * denom
 
+/-- the leaf's hashes as scored: downsampled to the query's scaled when that is coarser -/
+def leafView (q : Query) (l : Leaf) : List Nat :=
+  match q.cut with
+  | some mh => l.hashes.filter (fun h => h ≤ mh)
+  | none => l.hashes
+
+/-- the size an internal node contributes to its score: `min_n_below`, or 1 for a coarser query -/
+def subjSize (q : Query) (m : Nat) : Nat := if q.cut.isSome then 1 else m
+
+/-- score denominators of the three search types (`score_jaccard` with `total_size`,
+`score_containment`, `score_max_containment`) -/
+def denomOf (q : Query) (subj total : Nat) : Nat :=
+  if q.maxc then min q.mins.length subj
+  else if q.containment then q.mins.length else total
+
 /-- `node_search` on a leaf -/
 def leafPasses (q : Query) (l : Leaf) : Bool :=
-  let shared := interCount q.mins l.hashes
-  let total := q.mins.length + l.hashes.length - shared
-  if q.containment then passes q shared q.mins.length else passes q shared total
+  let view := leafView q l
+  let shared := interCount q.mins view
+  let total := q.mins.length + view.length - shared
+  passes q shared (denomOf q view.length total)
 
 /-- `_find_nodes` (dfs, `unload_data=True`) with `find`'s `node_search` inlined -/
 def findLoop (fixed keep : Bool) (q : Query) : Nat → Tree → List Nat → List Nat → List Leaf → Tree × Except Err (List Leaf)
@@ -431,7 +453,7 @@ def findLoop (fixed keep : Bool) (q : Query) : Nat → Tree → List Nat → Lis
             | none => (t, .error .value)          -- "no min_n_below on this tree"
             | some m =>
               let shared := (n.data t.sizes).matchCount q.mins
-              let ok := if q.containment then passes q shared q.mins.length else passes q shared m
+              let ok := passes q shared (denomOf q (subjSize q m) (subjSize q m))
               let queue := if ok then ((List.range t.d).map (child t.d p)).reverse ++ queue else queue
               let t := t.modNode p (INode.unloadV keep)
               findLoop fixed keep q fuel t (p :: visited) queue acc
@@ -479,6 +501,30 @@ def load (fixed : Bool) (im : Image) (version : Nat) (cacheMax : Option Nat) : E
     let t : Tree := { d := im.d, sizes := im.sizes, nodes := nodes, leaves := im.leaves, missing := missing,
                       nextNode := if version = 4 then maxNode else 0, cacheMax := cacheMax, cache := [] }
     if version = 3 then fillMinNBelow fixed t else .ok t
+
+/-- Python `round(x, -2)` on an int (ties to the even hundred) -/
+def round100 (x : Nat) : Nat :=
+  let q := x / 100
+  let r := x % 100
+  if r < 50 then q * 100 else if r > 50 then (q + 1) * 100 else if q % 2 = 0 then q * 100 else (q + 1) * 100
+
+/-- `_load_v1` / `_load_v2` (index versions 1 and 2): no factory or storage record -- the factory is
+re-derived from the header of the root's filter file (`extract_nodegraph_info`: first table size
+rounded to the hundred, number of tables), nothing is recorded as missing, internal nodes carry no
+metadata (legacy writers stored none).  `fills = true`: the loader ends with `_fill_min_n_below()`
+as `_load_v3` does; `fills = false`: it does not (the tree then has no `min_n_below` at all) -/
+def loadLegacy (fixed fills : Bool) (im : Image) (cacheMax : Option Nat) : Except Err Tree :=
+  match im.nodes.get? 0 with
+  | none => .error .key                          -- `nodes[0]`
+  | some root =>
+    match root.data.bs with
+    | [] => .error .value                        -- "Node graph ... is corrupt" (no table to read a size from)
+    | b :: _ =>
+      let nodes : PMap INode := im.nodes.map (fun kv => (kv.1, ⟨none, some kv.2.data, true, none⟩))
+      let t : Tree := { d := im.d, sizes := NG.tableSizes (round100 b.length) root.data.bs.length,
+                        nodes := nodes, leaves := im.leaves, missing := [], nextNode := 0,
+                        cacheMax := cacheMax, cache := [] }
+      if fills then fillMinNBelow fixed t else .ok t
 
 /-! ### observation helpers (used by the driver and by the executable invariant) -/
 
